@@ -52,8 +52,10 @@ func (e *Source) Value(_ context.Context, t *dials.Type) (reflect.Value, error) 
 		envTagVal := sf.Tag.Get(common.DialsEnvTagName)
 		if envTagVal == "" {
 			// dialsenv tag should be populated because dials tag is populated
-			// after flatten mangler and we copy from dials to dialsenv tag
-			panic(fmt.Errorf("empty %s tag for field name %s", common.DialsEnvTagName, sf.Name))
+			// after flatten mangler and we copy from dials to dialsenv tag.
+			// It comes out empty when a tag consists of separators only
+			// (e.g. `dials:"_"`), which names no environment variable.
+			return reflect.Value{}, fmt.Errorf("empty %s tag for field name %s", common.DialsEnvTagName, sf.Name)
 		}
 
 		if e.Prefix != "" {
